@@ -399,7 +399,10 @@ class Queue(Greenlet):
             if isinstance(results, collections.abc.Mapping):
                 self._handle_partial_relay(id, envelope, attempts, results)
             elif isinstance(results, collections.abc.Sequence):
-                results = dict(zip(envelope.recipients, results))
+                # Note: the name ``dict`` may refer to the slimta.queue.dict
+                # sub-module here, once that has been imported.
+                results = {rcpt: res for rcpt, res
+                           in zip(envelope.recipients, results)}
                 self._handle_partial_relay(id, envelope, attempts, results)
             else:
                 self._remove(id)
